@@ -121,6 +121,12 @@ func (C10) Generate(c *Ctx, r *Rand, index int) *Scenario {
 		// fails the per-document reference in the same way
 		argv = append(argv, "-o="+out)
 	}
+	if rs.Chance(1, 6) {
+		// presentation flags: the same for the combined run and for every per-document reference
+		for i, n := 0, rs.Range(1, 2); i < n; i++ {
+			argv = append(argv, Pick(rs, []string{"-P", "-I4", "-I1", "-M", "--unwrapScalar=false", "-r", "--string-interpolation=false", "--header-preprocess=false", "--xml-attribute-prefix=_", "--properties-array-brackets", "--lua-unquoted", "--csv-auto-parse", "--xml-skip-proc-inst"}))
+		}
+	}
 	if format == "base64" || format == "uri" {
 		argv = append(argv, "-p="+format)
 		sc.Meta["keep_flags"] = []any{"-p=" + format}
@@ -500,6 +506,12 @@ func (C10) Judge(c *Ctx, sc *Scenario) []Violation {
 					}
 				}
 				got := strings.Split(strings.TrimSpace(string(o.Stdout)), "\n")
+				for k := range got {
+					got[k] = strings.Trim(got[k], "\"") // -r prints strings unquoted
+				}
+				for k := range want {
+					want[k] = strings.Trim(want[k], "\"")
+				}
 				if strings.Join(got, ",") != strings.Join(want, ",") {
 					add("O10.4", "provenance mode=ea op="+probe, layout[0].Class, fmt.Sprintf("eval-all `%s` reports %v for documents whose true values are %v", probe, got, want))
 					break
